@@ -305,8 +305,12 @@ func (jr *jpegReader) readXMP() (err error) {
 		if err = jr.XMPReader(r); err != nil {
 			return err
 		}
+		// Bytes consumed by the XMP reader were read from the underlying
+		// reader directly: account for them in the absolute offset.
+		left := int(r.(*io.LimitedReader).N)
+		jr.discarded += uint32(remain - left)
 		// Discard remaining bytes
-		remain = int(r.(*io.LimitedReader).N)
+		remain = left
 	}
 	// Discard remaining bytes
 	return jr.discard(remain)
